@@ -39,6 +39,10 @@ def run(chk, repo: Repo):
     _r2(chk, repo, conj)
     _r3(chk, repo)
     _r4(chk, repo)
+    chk.rule("C10-R5", "closures of the conjugate samplers are not called after a variable they read was bound again (one name re-used for the smoothing "
+                       "constant and the Gamma rate)", floor=2)
+    from ..latebind import rebound_rule
+    rebound_rule(chk, repo, "C10-R5", ("cuqi/experimental/mcmc/_conjugate", "cuqi/sampler/_conjugate"))
 
 
 def _r1(chk, repo, conj):
